@@ -410,7 +410,20 @@ def gen_operator_spec(rng, version=None, rv=None, force_n=None, perm=False):
                 g += [208000 + rng.randint(1, 12), rng.choice(strs), rng.choice(nums), rng.choice(strs), 208000]
             elif r < 0.72:
                 e1, e2 = rng.choice(nums), rng.choice(nums)
-                g += [203000 + rng.randint(6, 16), e1, e2, 203255, e1, rng.choice(nums), e2, 203000]
+                nonzero = [e for e in nums if b[e][3] != 0]
+                if nonzero and rng.random() < 0.6:
+                    e1 = rng.choice(nonzero)        # an element whose Table B reference value is not 0
+                y203 = rng.randint(6, 16)
+                g += [203000 + y203, e1, e2, 203255, e1, rng.choice(nums), e2, 203000]
+                if gi == 0 and not ids and rng.random() < 0.6:
+                    # the group opens the data section, unwrapped: its new reference values sit at bit 0 and
+                    # the data content may make them exactly zero (sign and magnitude all zero)
+                    ids += g
+                    nb203 = (2 * y203 + 7) // 8
+                    factor_prefix = bytes(nb203) if rv.random() < 0.5 else bytes(rv.randrange(256) for _ in range(nb203))
+                    if rng.random() < 0.5:
+                        ids.append(rng.choice(els))
+                    continue
             elif r < 0.84 and 31021 in b:
                 g += [204000 + rng.randint(1, 8), 31021, rng.choice(nums), rng.choice(els), 204000]
             elif r < 0.88:
@@ -475,10 +488,13 @@ def gen_operator_spec(rng, version=None, rv=None, force_n=None, perm=False):
         if variant == '203':
             # 203YYY e 203255 in front of the elements, e being the last of them (inside the bitmap window)
             e1 = rng.choice(nums)
+            nonzero = [e for e in nums if b[e][3] != 0]
+            if nonzero and rng.random() < 0.6:
+                e1 = rng.choice(nonzero)        # an element whose Table B reference value is not 0
             prefix[-1] = e1
             y = rng.randint(4, 20)
             ids += [203000 + y, e1, 203255]
-            rnd(y)
+            bits.add(0 if rv.random() < 0.35 else rv.getrandbits(y), y)     # a new reference value of exactly 0 is a value
             close_203 = rng.choice(['before-operator', 'after-markers'])
         for e in prefix:
             ids.append(e)
@@ -902,6 +918,13 @@ def table_d_messages(seed, n):
             v = rng.choice(vs)
             _b, d = bufrgen.load_tables(v)
             todo.append((v, rng.choice(sorted(d)), [rng.choice([0.0, 0.02, 0.06])]))
+        # a fifth of the sample from the sequences that use a replication factor other than 031001 / 031002
+        # (031000, 031011, 031012: delayed repetition) - rare in Table D, and a sample of all sequences would
+        # hardly ever meet one; each with the all-zero content (every replication executed zero times) and a sparse one
+        rare = _rare_factor_sequences()
+        for j in range(min(len(rare), max(1, n // 5))):
+            v, sid = rare[rng.randrange(len(rare))]
+            todo[j] = (v, sid, [0.0, 0.02])
     for i, (v, sid, p1s) in enumerate(todo):
         for p1 in p1s:
             length = rng.choice([400, 1500, 3000])
@@ -914,15 +937,35 @@ def table_d_messages(seed, n):
                     'raw_data': data.hex(), 'nsub': 1}
             msg, _t = bufrgen.write_message(spec)
             if msg.find(b'BUFR', 1) < 0 and len(msg) <= MAX_MSG:
-                ent = {'ref': 'tabled:%d:%d:v%d:%06d%s' % (seed, i, v, sid, ':p%d' % int(p1 * 100) if n < 0 else ''),
+                ent = {'ref': 'tabled:%d:%d:v%d:%06d%s' % (seed, i, v, sid,
+                                                          ':p%d' % int(p1 * 100) if (n < 0 or len(p1s) > 1) else ''),
                        'hex': msg.hex(), 'src': 'operator', 'opkind': 'table-d-sequence'}
-                if n < 0:
+                if n < 0 or len(p1s) > 1:
                     ent['twin'] = 'dt%d:%06d' % (v, sid)
                 out.append(ent)
     return out
 
 
 _TABLE_D_PROGRAMS = []
+_RARE_FACTOR = []
+
+
+def _rare_factor_sequences():
+    if not _RARE_FACTOR:
+        for v, sid in distinct_table_d_programs():
+            _b, d = bufrgen.load_tables(v)
+
+            def flat(x, depth=0):
+                o = []
+                for m in d.get(x, []):
+                    if m // 100000 == 3 and depth < 8:
+                        o += flat(m, depth + 1)
+                    else:
+                        o.append(m)
+                return o
+            if any(m in (31000, 31011, 31012) for m in flat(sid)):
+                _RARE_FACTOR.append((v, sid))
+    return _RARE_FACTOR
 
 
 def distinct_table_d_programs():
